@@ -349,7 +349,56 @@ def rule_case_mapping(ctx: Ctx, rep: Report) -> None:
     rep.floor(rule, 3)
 
 
+def rule_text_admission_(ctx: Ctx, rep: Report) -> None:
+    """C06.text_admission: an address reaches its decoder with nothing but its ends trimmed (see sigcommon.rule_text_admission)."""
+    from rules.sigcommon import rule_text_admission
+    rule_text_admission(ctx, rep, "C06.text_admission", ("btclib.b32", "btclib.b58", "btclib.base58", "btclib.bech32", "btclib.script.script_pub_key"), 2)
+
+
+def rule_coercion_used_(ctx: Ctx, rep: Report) -> None:
+    """C06.coercion_used: a conversion of a parameter that is read again is kept (see sigcommon.rule_coercion_used)."""
+    from rules.sigcommon import rule_coercion_used
+    rule_coercion_used(ctx, rep, "C06.coercion_used", ("btclib.b32", "btclib.b58", "btclib.base58", "btclib.bech32", "btclib.script.script_pub_key", "btclib.network"))
+
+
+def rule_loose_to_strict_(ctx: Ctx, rep: Report) -> None:
+    """C06.loose_to_strict: a loose-typed parameter reaches a strict-typed helper only converted (see sigcommon.rule_loose_to_strict)."""
+    from rules.sigcommon import rule_loose_to_strict
+    rule_loose_to_strict(ctx, rep, "C06.loose_to_strict", ("btclib.b32", "btclib.b58", "btclib.base58", "btclib.bech32", "btclib.script.script_pub_key"), 1)
+
+
+def rule_encode_decode_sizes(ctx: Ctx, rep: Report) -> None:
+    """C06.encode_decode_sizes: the base58 address writer admits exactly the
+    payload sizes its reader admits: address_from_h160 writes a one-byte version
+    and a hash of the size(s) it converts its argument at, h160_from_address
+    decodes at one fixed size -- and the two agree (20 + 1 = 21). A writer that
+    takes a 32-byte hash too produces "addresses" its own reader refuses."""
+    rule = "C06.encode_decode_sizes"
+    enc, dec = ctx.func("btclib.b58.address_from_h160"), ctx.func("btclib.b58.h160_from_address")
+    wsizes = None
+    for c in own_nodes(enc.node):
+        if isinstance(c, ast.Call) and call_name(c) == "bytes_from_octets" and c.args and isinstance(c.args[0], ast.Name) and c.args[0].id in enc.params():
+            v = ctx.fold(c.args[1], enc.module) if len(c.args) > 1 else None
+            wsizes = {v} if isinstance(v, int) else set(v) if isinstance(v, (tuple, list, set, frozenset)) else None
+            site = c
+    rsize = None
+    for c in own_nodes(dec.node):
+        if isinstance(c, ast.Call) and call_name(c) == "b58decode" and len(c.args) > 1:
+            rsize = ctx.fold(c.args[1], dec.module)
+    if wsizes is None or not isinstance(rsize, int):
+        rep.unknown(rule, "b58:sizes", enc.where(), f"writer sizes {wsizes}, reader size {rsize}")
+        return
+    ok = {x + 1 for x in wsizes} == {rsize}
+    rep.ob(rule, "b58:h160", ok, enc.where(site), f"writer takes a hash of {sorted(wsizes)} bytes, reader decodes {rsize} = 1 + 20" + ("" if ok else ": the writer produces strings the reader refuses (or the reverse)"))
+    rep.floor(rule, 1)
+
+
 RULES = [
+    ("C06.encode_decode_sizes", rule_encode_decode_sizes),
+    ("C06.text_admission", rule_text_admission_),
+    ("C06.coercion_used", rule_coercion_used_),
+    ("C06.loose_to_strict", rule_loose_to_strict_),
+
     ("C06.case_mapping", rule_case_mapping),
     ("C06.params_forwarded", rule_params_forwarded_),
     ("C06.own_fields", rule_own_fields),
